@@ -1085,11 +1085,17 @@ class AnsiString:
         self._s += incoming_str
         find_settings = []
         replace_settings = []
+        # Settings are matched by reference, so the incoming ones must be distinct objects from the ones already in
+        # this string (the value may share them with me e.g. when it is a copy or a slice of this string)
+        unique_settings = {}
         for key, settings in sorted(incoming_fmts.items()):
             key += shift
+            for setting in settings.add + settings.rem:
+                if id(setting) not in unique_settings:
+                    unique_settings[id(setting)] = AnsiSetting(setting)
             # The incoming value must not be modified - only work with copies of its lists
-            settings_add = list(settings.add)
-            settings_rem = list(settings.rem)
+            settings_add = [unique_settings[id(s)] for s in settings.add]
+            settings_rem = [unique_settings[id(s)] for s in settings.rem]
             if key in self._fmts:
                 if (
                     key == shift
